@@ -36,6 +36,7 @@ var envConcPhases = []struct{ name, what string }{
 	{"reentrant", "a scope whose external lookup calls back into the scope it serves: a lazy loader that binds what it loads (Get / Type / Addr through it), and a read-only alias lookup that resolves through the scope while other goroutines define symbols on it"},
 	{"widevalues", "a variable holding a struct of 16 words with storage of its own: one goroutine sets it (SetValue with same-typed values whose fields are all equal), others Get it, Copy the scope and read the copy; every read sees the fields of one set"},
 	{"modulestring", "a scope holding a module: one goroutine defines and deletes symbols inside the module while others print the outer scope (String), copy it and list its symbols"},
+	{"typesnapshot", "one goroutine re-defines two type names again and again in a fixed order (first, then second, generation g = 1, 2, ...); others copy the scope: a copy shows the types of one moment - second is never newer than first"},
 	{"oddvalues", "a scope that holds values reflect refuses to copy / set / read (an unexported field of a host struct): Copy, DeepCopy, String under recover, then ordinary operations on the same scope"},
 	{"stress", "8 goroutines x 400 random operations incl. String, DefineType, Type, DeepCopy, symbol listings on one scope"},
 }
@@ -887,6 +888,92 @@ func streamEnvConc(o *Out, r *rand.Rand, n int, thorough bool) {
 		waitOrDeadlock(o, &wg, "modulestring")
 		o.Sum.Evaluations++
 		o.Sum.Hist["module-string-scenario"]++
+	}
+	if on("typesnapshot") && phase != "" {
+		e := env.NewEnv()
+		const nGen = 4000
+		genTypes := make([]reflect.Type, nGen+1)
+		for g := 1; g <= nGen; g++ {
+			genTypes[g] = reflect.ArrayOf(g, reflect.TypeOf(int8(0)))
+		}
+		gen := func(g int) reflect.Type { return genTypes[(g-1)%nGen+1] }
+		_ = e.DefineReflectType("first", gen(1))
+		_ = e.DefineReflectType("second", gen(1))
+		_ = e.Define("vfirst", int64(1))
+		_ = e.Define("vsecond", int64(1))
+		stop := make(chan struct{})
+		var wg sync.WaitGroup
+		var torn atomic.Value
+		wg.Add(1)
+		go func() {
+			defer wg.Done()
+			for g := 2; ; g++ {
+				select {
+				case <-stop:
+					return
+				default:
+					_ = e.DefineReflectType("first", gen(g))
+					_ = e.DefineReflectType("second", gen(g))
+				}
+			}
+		}()
+		wg.Add(1)
+		go func() {
+			defer wg.Done()
+			for g := 2; ; g++ {
+				select {
+				case <-stop:
+					return
+				default:
+					_ = e.Define("vfirst", int64(g))
+					_ = e.Define("vsecond", int64(g))
+				}
+			}
+		}()
+		for k := 0; k < 3; k++ {
+			wg.Add(1)
+			go func(k int) {
+				defer wg.Done()
+				for {
+					select {
+					case <-stop:
+						return
+					default:
+						var c *env.Env
+						if k == 2 {
+							c = e.DeepCopy()
+						} else {
+							c = e.Copy()
+						}
+						vf, _ := c.Get("vfirst")
+						vs, _ := c.Get("vsecond")
+						if f, s := vf.(int64), vs.(int64); s > f || f > s+1 {
+							torn.Store(fmt.Sprintf("a copy holds vfirst = %d and vsecond = %d", f, s))
+						}
+						tf, err1 := c.Type("first")
+						ts, err2 := c.Type("second")
+						if err1 != nil || err2 != nil {
+							torn.Store(fmt.Sprint("a copy lacks a type that was always defined: ", err1, " ", err2))
+						} else if f, s := tf.Len(), ts.Len(); !(f == s || f == s+1 || (f == 1 && s == nGen)) {
+							torn.Store(fmt.Sprintf("a copy holds type first of generation %d and type second of generation %d", f, s))
+						}
+					}
+				}
+			}(k)
+		}
+		d := 1500 * time.Millisecond
+		if thorough {
+			d = 8 * time.Second
+		}
+		time.Sleep(d)
+		close(stop)
+		waitOrDeadlock(o, &wg, "typesnapshot")
+		if b := torn.Load(); b != nil {
+			o.Fail(Failure{Oracle: "copy-is-a-snapshot", Key: "env-torn-copy", Input: "writer 1: for g = 2, 3, ...: DefineReflectType(first, [g]int8), DefineReflectType(second, [g]int8); writer 2: Define(vfirst, g), Define(vsecond, g); readers: Copy / DeepCopy, then Type(first), Type(second), Get(vfirst), Get(vsecond) on the copy",
+				Detail: b.(string) + "; the scope never was in that state (second is re-defined after first, generation by generation)"})
+		}
+		o.Sum.Evaluations++
+		o.Sum.Hist["type-snapshot-scenario"]++
 	}
 	if on("widevalues") && phase != "" {
 		type wide struct{ F [16]int64 }
